@@ -21,6 +21,12 @@ theorem good_ok_true : Good (.ok (true, [])) := by
 theorem good_ofResults (rs : List Result) : Good (ofResults rs) := by
   intro c rs' h; simp [ofResults] at h; obtain ⟨h1, h2⟩ := h; subst h2; exact h1.symm
 
+theorem good_liftResults (x : Except Failure (List Result)) : Good (liftResults x) := by
+  unfold liftResults
+  cases x with
+  | error e => intro c rs h; cases h
+  | ok rs => intro c r h; simp [ofResults] at h; rw [← h.1, ← h.2]
+
 theorem good_single (r : Result) : Good (.ok (false, [r])) := by
   intro c rs h; cases h; rfl
 
@@ -65,6 +71,7 @@ theorem good_evalConstraint (e : Env) (rec : Rec) (hrec : ∀ s v p, Good (rec s
       | exact good_error _
       | exact good_ok_true
       | exact good_ofResults _
+      | exact good_liftResults _
       | exact good_single _
       | exact good_logicalOver _ _ _ _ _ _ _
       | exact hrec _ _ _
